@@ -74,9 +74,9 @@ func VfSnapshot(cc Cache) VfState {
 
 func (c *diskCache) vfSnapshotLocked() VfState {
 	l := &c.lru
-	st := VfState{CurrentSize: l.currentSize, Reserved: l.reservedSize, Uncompressed: l.uncompressedSize,
+	st := VfState{CurrentSize: l.TotalSize(), Reserved: l.ReservedSize(), Uncompressed: l.UncompressedSize(),
 		MapLen: len(l.cache), ListLen: l.ll.Len(), QueuedBytes: l.queuedEvictionsSize.Load(),
-		MaxSize: l.maxSize, HardLimit: l.maxSizeHardLimit}
+		MaxSize: l.MaxSize(), HardLimit: l.maxSizeHardLimit}
 	seen := map[string]bool{}
 	for e := l.ll.Front(); e != nil; e = e.Next() {
 		kv := e.Value.(*entry)
